@@ -464,3 +464,49 @@ def c17_8(ctx, r):
                 r.ok("loop reads its variable")
     if nloops < 100:
         raise AnalysisError("C17.8", f"only {nloops} for-loops found in the package")
+
+
+@rule(P, "C17.9", "T1", "the estimate-required check reports only jobs of the time-batched group it was asked about", min_obligations=2)
+def c17_9(ctx, r):
+    """A configuration may mix a time-batched group (per_node_batch_size == 0, every job needs estimated_run_minutes) with count-batched groups
+    whose jobs need no estimate.  Such a configuration is valid; it is accepted only if the check, called per time-batched group, looks at that
+    group's jobs alone: the jobs collected for the error are filtered by `job.submission_group == <group parameter>` *and* the missing estimate."""
+    from ..lib import collections_from
+
+    fn = ctx.fn(f"{JC}.check_job_estimated_run_minutes", "C17.9")
+    if len(fn.params) != 2:
+        raise AnalysisError("C17.9", f"check_job_estimated_run_minutes parameters are {fn.params}")
+    gp = fn.params[1]
+    cols = collections_from(ctx, fn, lambda it: isinstance(it, ast.Call) and ctx.src(it.func).endswith("iter_jobs"))
+    raises = [n for n in ctx.cfg(fn).nodes if n.kind == "stmt" and isinstance(n.ast, ast.Raise)]
+    if not cols or not raises:
+        raise AnalysisError("C17.9", f"{len(cols)} job collections and {len(raises)} raises in check_job_estimated_run_minutes")
+    for n in raises:
+        names = {f for f, p in guard_forms(ctx, fn, n) if p}
+        feeding = [c for c in cols if c["into"] in names]
+        if not feeding:
+            raise AnalysisError("C17.9", f"the raise at {fn.loc(n.ast)} is not guarded by a collection of jobs (guards {sorted(names)})")
+        for c in feeding:
+            pos = {f.replace(" ", "") for f, p in c["conds"] if p}
+            grp = ("_.submission_group", "<JobParametersInterface.submission_group>")
+            est = ("_.estimated_run_minutes", "<JobParametersInterface.estimated_run_minutes>")
+            okg = any(f"{g}=={gp}" in pos or f"{gp}=={g}" in pos for g in grp)
+            oke = any(f"{e}isNone" in pos for e in est)
+            extra = {f for f, p in c["conds"] if not p}
+            r.check(okg and oke and not extra, "jobs reported are those of the named group that lack an estimate", key_of(fn, f"reported jobs filtered by {sorted(f for f, p in c['conds'] if p)[:3]}"), fn.loc(n.ast),
+                    f"the jobs that make check_job_estimated_run_minutes raise are collected under {sorted(c['conds'])}: " + ("the group filter is gone, so a job of a *count-batched* group without an estimate makes a "
+                    "valid mixed configuration fail" if not okg else "the filter is not `group matches and estimate is None`"), "every valid configuration is accepted")
+    rc = ctx.fn("JobSubmitter.run_checks", "C17.9")
+    n = 0
+    for s in ctx.sites(rc, short=f"{JC}.check_job_estimated_run_minutes"):
+        n += 1
+        arg = ctx.arg_for(s, fn, gp)
+        loops = [lp for lp in iter_own(rc.node) if isinstance(lp, ast.For) and any(x is s.node for x in ast.walk(lp))]
+        gv = ctx.src(loops[-1].target) if loops else None
+        forms = {f.replace(" ", ""): p for nd in ctx.nodes_of(rc, s.node) for f, p in guard_forms(ctx, rc, nd)}
+        okc = gv is not None and arg is not None and ctx.src(arg) == f"{gv}.name" and any(f in (f"{gv}.submitter_params.per_node_batch_size==0", f"0=={gv}.submitter_params.per_node_batch_size") and p for f, p in forms.items())
+        r.check(okc, "run_checks asks about the group whose batching is time-based, by its own name", key_of(rc, "estimate check argument"), rc.loc(s.node),
+                f"run_checks calls check_job_estimated_run_minutes({ctx.src(arg) if arg is not None else ''}) under {sorted(forms)}: not `<group>.name` of the group whose per_node_batch_size is 0",
+                "every valid configuration is accepted")
+    if n != 1:
+        raise AnalysisError("C17.9", f"{n} calls of check_job_estimated_run_minutes in run_checks")
